@@ -203,5 +203,5 @@ Lemma foi_assign_cells s table selects omits ps stored mk wh :
   out_cells (run_op s table OFoiAssign selects omits ps stored mk wh) = [].
 Proof. reflexivity. Qed.
 
-Lemma slice_match_refuted : exists l ks, key_match (MSlice l) ks = true /\ ~ In (hd 0 ks) l.
+Lemma slice_match_old_refuted : exists l ks, slice_match_old l ks = true /\ ~ In (hd 0 ks) l.
 Proof. exists [2; 0], [1]. split; [reflexivity|]. cbn. intros [H|[H|[]]]; discriminate. Qed.
